@@ -245,6 +245,8 @@ class SimSocket(object):
         r = self.w.sc.get('shutdown_raises')
         if r == 'boom':
             raise Boom('shutdown')
+        if r == 'reset':
+            raise OSError(104, 'Connection reset by peer (sim {0} {} {errno} %s)')
         if r:
             raise OSError(107, 'not connected (sim {0} {} {errno} %s)')
 
@@ -905,6 +907,21 @@ def do_call(world, ws, call, at):
         a, kw, expected, jobj = argmod.build(method, spec, world.rng)
         snap = argmod.snapshot(a, kw)
         api = (method, a, kw, expected, jobj, snap)
+    if name == 'other_recv':
+        # a SECOND live connection of the same process reads from its own socket while this connection's handler runs: a fresh
+        # WebSocket / session pair whose socket hands out Ping frames with a tell-tale payload.  Nothing of it may show up here.
+        n = int(args[0]) if args else 64
+        other = m['session'].WebsocketSession(m['websocket'].WebSocket('ws://other.example/', proxies={}))
+
+        class _OtherSock(object):
+            def recv_into(self, buf, count):
+                pat = (b'\x89\x03ZZZ' * (count // 5 + 1))[:count]
+                buf[:count] = pat
+                return count
+        other._sock = _OtherSock()
+        got = bytes(other._recv(n))
+        world.rec({"k": "other", "what": "recv", "n": len(got)})
+        return None
     try:
         if api:
             getattr(ws, api[0])(*api[1], **api[2])
